@@ -43,10 +43,18 @@ func coYield(L *LState) int {
 const maxResumeDepth = 200
 
 func coResume(L *LState) int {
+	return resumeThread(L, false)
+}
+
+// resumeThread resumes the thread at index 1 with the values above it. wrapped tells how this resume
+// was made: through the function coroutine.wrap returned (plain results, errors are raised) or
+// through coroutine.resume (true/false in front). It is a property of the resume, not of the thread:
+// a thread made by wrap can get hold of itself with coroutine.running and be resumed by hand.
+func resumeThread(L *LState, wrapped bool) int {
 	th := L.CheckThread(1)
 	if L.G.CurrentThread == th {
 		msg := "can not resume a running thread"
-		if th.wrapped {
+		if wrapped {
 			L.RaiseError(msg)
 			return 0
 		}
@@ -56,7 +64,7 @@ func coResume(L *LState) int {
 	}
 	if th.Dead {
 		msg := "can not resume a dead thread"
-		if th.wrapped {
+		if wrapped {
 			L.RaiseError(msg)
 			return 0
 		}
@@ -68,7 +76,7 @@ func coResume(L *LState) int {
 		// the body was a host function that yielded (coroutine.wrap(coroutine.yield)): nothing is left
 		// to run, the values of this resume are the coroutine's results
 		th.kill()
-		if th.wrapped {
+		if wrapped {
 			L.Remove(1)
 		} else {
 			L.Replace(1, LTrue)
@@ -78,7 +86,7 @@ func coResume(L *LState) int {
 	if L.Status(th) == "normal" {
 		// it is waiting for the thread it resumed (an ancestor of the running one)
 		msg := "can not resume a normal thread"
-		if th.wrapped {
+		if wrapped {
 			L.RaiseError(msg)
 			return 0
 		}
@@ -114,6 +122,7 @@ func coResume(L *LState) int {
 		L.XMoveTo(th, nargs)
 		th.padResumeValues(nargs)
 	}
+	th.wrapped = wrapped
 	th.Parent = L
 	L.G.CurrentThread = th
 	top := L.GetTop()
@@ -137,12 +146,11 @@ func coStatus(L *LState) int {
 
 func wrapaux(L *LState) int {
 	L.Insert(L.ToThread(UpvalueIndex(1)), 1)
-	return coResume(L)
+	return resumeThread(L, true)
 }
 
 func coWrap(L *LState) int {
 	coCreate(L)
-	L.CheckThread(L.GetTop()).wrapped = true
 	v := L.Get(L.GetTop())
 	L.Pop(1)
 	L.Push(L.NewClosure(wrapaux, v))
